@@ -110,15 +110,20 @@ func blsOracle(ids []uint16, t int, shares map[uint16][]byte, r *prng.Rand, lg b
 		}
 		signers[id] = s
 	}
-	digests := [][]byte{{}, {7}, sha([]byte("m")), r.Bytes(1024), r.Bytes(r.Range(1, 100))}
+	// (two digests of the same length in a row: see the buffer below)
+	digests := [][]byte{{}, {7}, sha([]byte("m")), sha([]byte("m2")), r.Bytes(1024), r.Bytes(r.Range(1, 100))}
 	var v bls.Verifier
 	if err := v.Init(pk0); err != nil {
 		return fmt.Sprintf("Verifier.Init on the reported public parameters: %v", err), 0
 	}
+	// the digests are handed over in one buffer that is overwritten for every message, as a caller does that
+	// computes them with h.Sum(buf[:0]): a signer must not hold on to the caller's slice
+	buf := make([]byte, 0, 2048)
 	for di, dg := range digests {
 		sigs := map[uint16][]byte{}
+		buf = append(buf[:0], dg...)
 		for _, id := range ids {
-			sig, err := signers[id].Sign(nil, dg)
+			sig, err := signers[id].Sign(nil, buf)
 			if err != nil {
 				return fmt.Sprintf("party %d: Sign: %v", id, err), subsetsChecked
 			}
@@ -137,7 +142,7 @@ func blsOracle(ids []uint16, t int, shares map[uint16][]byte, r *prng.Rand, lg b
 				problem = fmt.Sprintf("aggregate %v: %v", sub, err)
 				return
 			}
-			if err := v.Verify(dg, agg); err != nil {
+			if err := v.Verify(append([]byte{}, dg...), agg); err != nil {
 				problem = fmt.Sprintf("signature of subset %v on digest #%d does not verify under the threshold key: %v", sub, di, err)
 				return
 			}
